@@ -49,7 +49,8 @@ TIERS = {
 REACH_PROBES = ["redefined_in_slot", "closure_dropped_from_container", "container_cleared", "file_reloaded", "file_deleted",
                 "unloaded_and_compared", "setup_again", "several_names_one_entity", "same_live_set_seen_twice",
                 "stale_condition_probe", "periodic_trigger_removed", "webhook_redefined",
-                "stop_while_definition_in_progress", "shared_service_name_refused"]
+                "stop_while_definition_in_progress", "shared_service_name_refused", "function_defined_twice_in_one_file",
+                "definition_dropped_at_once"]
 SHRINK_LISTS = [["ops"], ["spec", "templates"]]
 
 KINDS = ["ev", "st", "st2", "time", "per", "mqtt", "hook", "svc", "shr"]
@@ -70,6 +71,7 @@ def gen(rng: random.Random, tier: str) -> dict:
     for name in FILES:
         if rng.random() < 0.6:
             files[name] = rng.randrange(len(templates))
+    redef = [name for name in FILES if rng.random() < 0.25]
     ops = []
     n_list = 0
     for _ in range(rng.randint(4, 20 if tier == "thorough" else 14)):
@@ -77,9 +79,12 @@ def gen(rng: random.Random, tier: str) -> dict:
         tmpl = rng.randrange(len(templates))
         if roll < 0.3:
             ops.append({"kind": "make", "slot": rng.choice(SLOTS), "tmpl": tmpl})
-        elif roll < 0.38:
+        elif roll < 0.36:
             n_list += 1
             ops.append({"kind": "append", "tmpl": tmpl})
+        elif roll < 0.39:
+            # a decorated closure is created and its only reference dropped at once, in the same call
+            ops.append({"kind": "make_lost", "tmpl": tmpl})
         elif roll < 0.52:
             ops.append({"kind": "drop", "slot": rng.choice(SLOTS)})
         elif roll < 0.57:
@@ -106,7 +111,7 @@ def gen(rng: random.Random, tier: str) -> dict:
                 ops.append({"kind": "setup"})
         else:
             ops.append({"kind": "stall", "s": rng.choice([0.05, 0.5])})
-    return normalize({"cfg": cfg, "spec": {"templates": templates, "files": files}, "ops": ops})
+    return normalize({"cfg": cfg, "spec": {"templates": templates, "files": files, "redef": redef}, "ops": ops})
 
 
 # ------------------------------------------------------------------ rendering
@@ -135,8 +140,18 @@ def _decorators(kinds: list, slot_expr: str) -> list[str]:
     return out
 
 
-def _file_src(name: str, tmpl_idx: int, kinds: list, gen_no: int) -> str:
+OLD_GEN = 1000  # generation numbers >= OLD_GEN: the first of two same-named definitions in one file
+
+
+def _file_src(name: str, tmpl_idx: int, kinds: list, gen_no: int, redef: bool = False) -> str:
     lines = [f"# generation {gen_no}", f"SLOT = 'file_{name}'"]
+    if redef:
+        # the same function is defined twice in the file: only the second definition is referenced once the file
+        # has loaded, so only it may be active
+        lines += _decorators(kinds, "SLOT")
+        lines += [f"def top_{name}(**kw):",
+                  f"    sim.mark('run', 'file_{name}', {OLD_GEN + gen_no}, {tmpl_idx}, kw.get('trigger_type'), kw.get('trigger_time'), kw.get('var_name'))",
+                  ""]
     lines += _decorators(kinds, "SLOT")
     lines += [f"def top_{name}(**kw):",
               f"    sim.mark('run', 'file_{name}', {gen_no}, {tmpl_idx}, kw.get('trigger_type'), kw.get('trigger_time'), kw.get('var_name'))",
@@ -158,7 +173,7 @@ def render(scn: dict) -> dict:
     lines += ["@service", "def lifecycle(cmd=None, slot=None, gen=None, tmpl=None):",
               "    fn = None"]
     for idx in range(len(spec["templates"])):
-        lines.append(f"    if tmpl == {idx} and cmd in ('make', 'append'):")
+        lines.append(f"    if tmpl == {idx} and cmd in ('make', 'append', 'lost'):")
         lines.append(f"        fn = fact{idx}(slot, gen)")
     lines += ["    if cmd == 'make':",
               "        holder[slot] = fn",
@@ -174,7 +189,8 @@ def render(scn: dict) -> dict:
     files = {"pyscript/c09.py": "\n".join(lines) + "\n"}
     for name, tmpl in spec["files"].items():
         if tmpl < len(spec["templates"]):
-            files[f"pyscript/g_{name}.py"] = _file_src(name, tmpl, spec["templates"][tmpl], 0)
+            files[f"pyscript/g_{name}.py"] = _file_src(name, tmpl, spec["templates"][tmpl], 0,
+                                                       name in spec.get("redef", []))
     return files
 
 
@@ -224,6 +240,10 @@ def simplify(scn: dict):
     for name in list(scn["spec"]["files"]):
         cand = copy.deepcopy(scn)
         del cand["spec"]["files"][name]
+        yield cand
+    for name in list(scn["spec"].get("redef", [])):
+        cand = copy.deepcopy(scn)
+        cand["spec"]["redef"].remove(name)
         yield cand
     for key, val in (("timer_late_ms", 0.0), ("cost_us", 50), ("exec_latency_ms", [0.0, 0.0]), ("set_order_salt", 0),
                      ("svc_params_delay_ms", 0)):
@@ -300,6 +320,7 @@ def run(scn: dict) -> dict:
         a1 = 0
         census_by_key: dict = {}
         list_n = 0
+        lost_n = 0
         expected_extra: list = []   # startup / shutdown markers expected in the current interval
         shared = {"owner": None}    # context that owns pyscript.svc_shared (reference model of the ownership rule)
         shared_calls: set = set()   # (key, gen) run by the probe call of the shared service in the current round
@@ -315,6 +336,9 @@ def run(scn: dict) -> dict:
             return key if key.startswith("file_") else "main"
 
         def define(key, tmpl, where, gen_no):
+            if where == "file" and key[len("file_"):] in spec.get("redef", []):
+                racing.add((key, OLD_GEN + gen_no))  # the superseded first definition: its markers are don't-care
+                w.probe("function_defined_twice_in_one_file")
             if key in live:
                 remove(key, "redefine")
             live[key] = {"gen": gen_no, "tmpl": tmpl, "where": where}
@@ -540,6 +564,12 @@ def run(scn: dict) -> dict:
                 gens[key] = gens.get(key, 0) + 1
                 await w.call_service("pyscript", "lifecycle", {"cmd": kind, "slot": key, "gen": gens[key], "tmpl": op["tmpl"]})
                 define(key, op["tmpl"], "closure", gens[key])
+            elif kind == "make_lost":
+                lost_n += 1
+                key = f"X{lost_n}"
+                racing.add((key, 1))
+                w.probe("definition_dropped_at_once")
+                await w.call_service("pyscript", "lifecycle", {"cmd": "lost", "slot": key, "gen": 1, "tmpl": op["tmpl"]})
             elif kind == "drop":
                 if op["slot"] in live:
                     w.probe("closure_dropped_from_container")
@@ -556,7 +586,8 @@ def run(scn: dict) -> dict:
                 file_gen[name] += 1
                 file_tmpl[name] = op["tmpl"]
                 file_present[name] = True
-                w.write_file(f"pyscript/g_{name}.py", _file_src(name, op["tmpl"], templates[op["tmpl"]], file_gen[name]))
+                w.write_file(f"pyscript/g_{name}.py", _file_src(name, op["tmpl"], templates[op["tmpl"]], file_gen[name],
+                                                                name in spec.get("redef", [])))
                 await w.reload()
                 w.probe("file_reloaded")
                 define(f"file_{name}", op["tmpl"], "file", file_gen[name])
